@@ -1,2 +1,124 @@
-(** placeholder until the C06 theorems are in place *)
-From Texel Require Import Prelude.Base.
+(** * C06 — snapping is total: the spike-removal part (kmpDeduplicate and its helpers).
+
+    Proved for ALL inputs: the three search helpers never index out of range and never loop
+    ([C06_search_total]); kmpDeduplicate never loops, and can fail in two ways only
+    ([C06_kmp_total_partial], [C06_kmp_no_hang]).
+    Refuted: kmpDeduplicate is NOT total, even on rings with >= 3 vertices, first <> last and no
+    two equal neighbours (what cleanupNewRing passes to it): [C06_kmp_total_refuted] — a 33-vertex
+    ring on three pixel centres makes RemoveSequences slice [20:19] (reproduced on the Go code).
+    Bounded: no failure on any chain of the enumerated domains ([C06_kmp_total_4_upto_9], ...).
+    A reported [kmpSearch] position need not be an occurrence ([C06_kmpSearch_unsound_refuted]). *)
+From Coq Require Import ZArith List Bool Sorted.
+From Texel Require Import Prelude.Base Index.Model Snap.Model
+  Snap.ProofsKmpSearch Snap.ProofsKmpSubseq Snap.ProofsKmpTotal Snap.ProofsKmpEnum.
+Import ListNotations.
+Open Scope Z_scope.
+
+(** kmpTable / kmpSearch / kmpSearchAll return normally on every input that satisfies the size
+    relation their callers establish; tables have the failure-function bounds; reported positions
+    are in range, strictly increasing and non-overlapping *)
+Theorem C06_search_total :
+  (forall find table, (2 <= length table)%nat -> (length find <= length table)%nat ->
+     exists t, kmpTable find table = Ok t /\ length t = length table /\ idx t 0 = Ok (-1) /\
+               forall k, 1 <= k < zlen find -> exists v, idx t k = Ok v /\ 0 <= v < k) /\
+  (forall corpus find, find <> [] -> (length find <= Nat.max (length corpus) 2)%nat ->
+     exists m, kmpSearch corpus find = Ok m /\ 0 <= m <= zlen corpus /\
+               (m < zlen corpus -> m + zlen find <= zlen corpus)) /\
+  (forall corpus find, find <> [] -> (length find <= length corpus)%nat ->
+     exists ms, kmpSearchAll corpus find = Ok ms /\
+                chain_from 0 (zlen find) ms /\
+                StronglySorted Z.lt ms /\
+                Forall (fun m => 0 <= m /\ m + zlen find <= zlen corpus) ms /\
+                (forall j a b, nth_error ms j = Some a -> nth_error ms (S j) = Some b -> a + zlen find <= b)).
+Proof. exact (conj kmpTable_ok (conj kmpSearch_ok kmpSearchAll_ok)). Qed.
+Print Assumptions C06_search_total.
+
+(** a pattern that is a prefix of the corpus is found at 0 (so [len matches >= 1] in kmpDeduplicate) *)
+Theorem C06_kmpSearch_prefix : forall corpus find, find <> [] ->
+  firstn (length find) corpus = find -> kmpSearch corpus find = Ok 0.
+Proof. exact kmpSearch_prefix. Qed.
+Print Assumptions C06_kmpSearch_prefix.
+
+(** every ring: kmpDeduplicate returns, or its loop reads [ring[-1]] after the inner default of the
+    switch (only when [len matches = 1 /\ len reverseMatches = 0]), or RemoveSequences slices out
+    of bounds (exactly when the recorded ranges violate [ranges_ok]) *)
+Theorem C06_kmp_total_partial : forall r,
+  (exists r', kmpDeduplicate r = Ok r') \/
+  kmpDedupLoop (kmpFuel r) r [] [] 0 = Err IndexOutOfRange \/
+  (exists seqs, kmpDedupLoop (kmpFuel r) r [] [] 0 = Ok seqs /\ ~ ranges_ok (zlen r) seqs 0 /\
+                kmpDeduplicate r = Err SliceBounds).
+Proof. exact kmpDeduplicate_partial. Qed.
+Print Assumptions C06_kmp_total_partial.
+
+(** every ring: the loop terminates (fuel 4n+8 is never exhausted) *)
+Theorem C06_kmp_no_hang : forall r, kmpDeduplicate r <> Err OutOfFuel.
+Proof. exact kmpDeduplicate_no_OutOfFuel. Qed.
+Print Assumptions C06_kmp_no_hang.
+
+(** RemoveSequences succeeds exactly on ordered, in-range ranges *)
+Theorem C06_removeSequences_ok_iff : forall s m,
+  (exists t, removeSequences s m = Ok t) <-> ranges_ok (zlen s) m 0.
+Proof. exact removeSequences_ok_iff. Qed.
+Print Assumptions C06_removeSequences_ok_iff.
+
+(** the full statement is false of the faithful model (and of the code) *)
+Theorem C06_kmp_total_refuted : exists r,
+  (3 <= length r)%nat /\
+  (forall a b, hd_error r = Some a -> last_opt r = Some b -> a <> b) /\
+  (forall i p q, nth_error r i = Some p -> nth_error r (S i) = Some q -> p <> q) /\
+  kmpDedupLoop (kmpFuel r) r [] [] 0 = Ok [([(1, 0); (0, 0); (1, 1)], (0, 20)); ([(1, 0); (1, 1)], (19, 21))] /\
+  kmpDeduplicate r = Err SliceBounds.
+Proof. exact kmpDeduplicate_total_refuted. Qed.
+Print Assumptions C06_kmp_total_refuted.
+
+(** bounded totality: ALL chains (equal neighbours, first = last, lengths 0..2 included) *)
+Theorem C06_kmp_total_4_upto_9 : forall w, (length w <= 9)%nat -> Forall (fun a => (a < 4)%nat) w ->
+  exists r', kmpDeduplicate (chain w) = Ok r'.
+Proof. exact kmp_total_4_upto_9. Qed.
+Print Assumptions C06_kmp_total_4_upto_9.
+
+Theorem C06_kmp_total_3_upto_10 : forall w, (length w <= 10)%nat -> Forall (fun a => (a < 3)%nat) w ->
+  exists r', kmpDeduplicate (chain w) = Ok r'.
+Proof. exact kmp_total_3_upto_10. Qed.
+Print Assumptions C06_kmp_total_3_upto_10.
+
+Theorem C06_kmp_total_2_upto_14 : forall w, (length w <= 14)%nat -> Forall (fun a => (a < 2)%nat) w ->
+  exists r', kmpDeduplicate (chain w) = Ok r'.
+Proof. exact kmp_total_2_upto_14. Qed.
+Print Assumptions C06_kmp_total_2_upto_14.
+
+Theorem C06_kmp_total_5_upto_7 : forall w, (length w <= 7)%nat -> Forall (fun a => (a < 5)%nat) w ->
+  exists r', kmpDeduplicate (chain w) = Ok r'.
+Proof. exact kmp_total_5_upto_7. Qed.
+Print Assumptions C06_kmp_total_5_upto_7.
+
+(** kmpSearch reports a position that is not an occurrence *)
+Example C06_kmpSearch_unsound_refuted :
+  let A := (0, 0) in let B := (1, 0) in
+  let corpus := [B; A; A; B; A; B; A; A] in
+  let find := [B; A; A; B; A; A] in
+  kmpSearch corpus find = Ok 2 /\ occurs_at corpus find 2 = false /\
+  firstn 6 (skipn 2 corpus) = [A; B; A; B; A; A].
+Proof. exact kmpSearch_unsound_refuted. Qed.
+
+(** ** non-vacuity: adversarially repetitive inputs on which everything returns *)
+Example C06_examples_ok :
+  let A := (0, 0) in let B := (1, 0) in let C := (1, 1) in let D := (0, 1) in
+  (* lengths 0, 1, 2 *)
+  kmpDeduplicate [] = Ok [] /\ kmpDeduplicate [A] = Ok [A] /\ kmpDeduplicate [A; B] = Ok [A; B] /\
+  (* all equal *)
+  is_ok (kmpDeduplicate [A; A; A; A; A; A; A; A]) = true /\
+  (* periodic words *)
+  kmpDeduplicate [A; B; A; B; A; B; A; B; A; B; A; B] = Ok [A; B] /\
+  is_ok (kmpDeduplicate [A; B; C; A; B; C; A; B; C; A; B; C; A; B; C]) = true /\
+  (* palindromes *)
+  kmpDeduplicate [A; B; C; D; C; B; A] = Ok [A; B; C; D; C; B; A] /\
+  is_ok (kmpDeduplicate [A; B; C; D; C; B; A; B; C; D; C; B; A; B; C; D]) = true /\
+  (* a zigzag that is removed *)
+  kmpDeduplicate [D; A; B; C; B; A; B; C; D] = Ok [D; A; B; C; D] /\
+  (* the searches on periodic input *)
+  kmpSearchAll [A; B; A; B; A; B; A; B] [A; B] = Ok [0; 2; 4; 6] /\
+  kmpSearchAll [A; A; A; A; A; A; A] [A; A; A] = Ok [0; 3] /\
+  kmpSearch [A; B; C] [D] = Ok 3 /\
+  kmpTable [A; B; A; B; A; C] (repeat 0 6) = Ok [-1; 0; 0; 1; 2; 3].
+Proof. vm_compute. repeat split; reflexivity. Qed.
